@@ -170,6 +170,10 @@ func main() {
 	if raceEnabled {
 		nOff, nOn = nOff*2/3, nOn*2/3
 	}
+	only := os.Getenv("C17_ONLY") // development aid: "directed" runs Part 3 alone
+	if only == "directed" {
+		nOff, nOn = 0, 0
+	}
 	slow := false
 	formats := []string{"auto", "none", "AUTO"}
 	nontrivial := 0
@@ -241,6 +245,9 @@ func main() {
 			}
 		}
 	}
+	if only == "directed" {
+		combos = nil
+	}
 	ops := 40
 	if thorough {
 		ops = 80
@@ -284,9 +291,21 @@ func main() {
 		}
 	}
 
+	// ---------------- Part 3: directed search for a split discovery step ----------------
+	if len(st.ImplFailures) < 16 {
+		budget := 4 * time.Second
+		if thorough {
+			budget = 40 * time.Second
+		}
+		writeCurrent(*out, map[string]interface{}{"kind": "directed", "config": directedCfgFor(0)})
+		runDirected(budget, st)
+	}
+	dRounds, _ := st.Extra["directed_rounds"].(int)
+	runs += dRounds
+
 	st.Evaluations = w.Count() + runs
 	st.Distinct = nontrivial + runs
-	st.Rule = "Part 1: random sequential histories (8-16 steps + epilogue) over {create file: fresh address / second spelling 0x.. or upper case of a used address / real key file + password file / non-matching names (.pwd, 38 hex digits, .key.jso, README) / directory with a matching name; Refresh; AddListener; GetAccounts; drain; Sign+SignTypedDataV4} x {listener disabled (exact order compared) | enabled (sets compared at quiescent points)} x {extension rule | capture-group regex} x {metadata auto | AUTO | none}, 0-2 initial listeners, 0-3 files before start; non-trivial = at least one account discovered and one delivery. Part 2: stress runs with G goroutines x GOMAXPROCS x listener on/off x metadata format, ops {create, second spelling, real key, non-matching, Refresh, GetAccounts, AddListener, Sign, SignTypedDataV4, GetWalletFile}, Close (also concurrent and while running) with deadline; oracles: duplicate-account, disappearing account, no-convergence (with and without final Refresh), missing-delivery (listener registered before the address's first file was written), duplicate-delivery, phantom-delivery, close-does-not-return, sign failure for a listed key, deadlock (workers not finishing); race-detector reports with pkg/fswallet frames when built with -race."
+	st.Rule = "Part 1: random sequential histories (8-16 steps + epilogue) over {create file: fresh address / second spelling 0x.. or upper case of a used address / real key file + password file / non-matching names (.pwd, 38 hex digits, .key.jso, README) / directory with a matching name; Refresh; AddListener; GetAccounts; drain; Sign+SignTypedDataV4} x {listener disabled (exact order compared) | enabled (sets compared at quiescent points)} x {extension rule | capture-group regex} x {metadata auto | AUTO | none}, 0-2 initial listeners, 0-3 files before start; non-trivial = at least one account discovered and one delivery. Part 2: stress runs with G goroutines x GOMAXPROCS x listener on/off x metadata format, ops {create, second spelling, real key, non-matching, Refresh, GetAccounts, AddListener, Sign, SignTypedDataV4, GetWalletFile}, Close (also concurrent and while running) with deadline; oracles: duplicate-account, disappearing account, no-convergence (with and without final Refresh), missing-delivery (listener registered before the address's first file was written), duplicate-delivery, phantom-delivery, close-does-not-return, sign failure for a listed key, deadlock (workers not finishing); race-detector reports with pkg/fswallet frames when built with -race. Part 3 (time budget 4 s / 40 s): directed rounds on one reused wallet, 12 trials each of {Refresh or the fs event loop discovering 1-3 new addresses} || {2-8 goroutines, after a delay drawn from the measured duration of a Refresh: GetAccounts; AddListener(fresh channel) x1-3; GetAccounts} under GOMAXPROCS 2..NumCPU; oracle per (listener, address): listed before AddListener -> never delivered, not listed right after AddListener -> delivered exactly once, otherwise at most once; no phantom delivery; Close returns."
 	st.Extra["seq_histories"] = w.Count()
 	st.Extra["stress_runs"] = runs
 	st.Extra["seq_seconds"] = tSeq.Seconds()
@@ -330,6 +349,22 @@ func doReplay(path string, pool []*keyT) {
 			f, _ := json.MarshalIndent(res.fails, "", " ")
 			fmt.Printf("stress run %d: accounts=%d listeners=%d deliveries=%d failures=%s\n", i, res.accounts, res.listeners, res.deliveries, f)
 		}
+	case "directed":
+		var cfg directedCfg
+		_ = json.Unmarshal(c.Config, &cfg)
+		// the finding depends on the schedule: repeat the round (same parameters) until it shows again, 30 s at most
+		t0 := time.Now()
+		trials := 0
+		for i := 0; time.Since(t0) < 30*time.Second; i++ {
+			res := runDirectedRound(cfg)
+			trials += res.trials
+			if len(res.fails) > 0 {
+				f, _ := json.MarshalIndent(res.fails, "", " ")
+				fmt.Printf("directed round %d, repetition %d (%d trials so far): failures=%s\n", cfg.Round, i, trials, f)
+				return
+			}
+		}
+		fmt.Printf("directed round %d: not reproduced in %d trials (schedule dependent; rerun ./check C17)\n", cfg.Round, trials)
 	default:
 		fmt.Println("replay: the case is a race report or a broken obligation; rerun ./check C17 (race build) to reproduce:")
 		fmt.Println(string(rf.Case))
